@@ -77,6 +77,10 @@ def bytes_to_mnemonic(b, num_bits):
         raise InvalidBIP39Length(
             f"{num_bits} bits (you need 128, 160, 192, 224 or 256 bits)"
         )
+    if len(b) * 8 != num_bits:
+        raise InvalidBIP39Length(
+            f"{len(b)} bytes of entropy do not match num_bits={num_bits}"
+        )
     preseed = big_endian_to_int(b)
     # 1 extra bit for checksum is needed per 32 bits
     num_checksum_bits = num_bits // 32
